@@ -8,4 +8,5 @@ CONSTANTS Ids = {1, 2}
  MaxTotal = 3
 INVARIANT Inv
 CONSTRAINT Bound
+CONSTANT WideNums = FALSE
 CHECK_DEADLOCK FALSE
